@@ -533,7 +533,7 @@ func writeEvidence(root string, spec *CheckSpec, tier string, seed int64, P *Pro
 	cov["exhaustive"] = exhaustive && len(incon) == 0
 	cov["path_space_exhausted_within_bounds"] = exhaustive
 	cov["interpreter_steps"] = steps
-	cov["solver"] = map[string]interface{}{"backend": "z3 4.8.12 (one process per job, push/pop)", "queries": solver.Queries, "sat": solver.Sat, "unsat": solver.Unsat, "unknown": solver.Unknown, "errors": solver.Errors,
+	cov["solver"] = map[string]interface{}{"backend": "z3 5.1.0 (z3-new, one incremental process per job, push/pop); hard queries one-shot on z3 4.8.12, then cvc5 1.0", "queries": solver.Queries, "sat": solver.Sat, "unsat": solver.Unsat, "unknown": solver.Unknown, "errors": solver.Errors,
 		"answered_by_model_evaluation": solver.Skipped, "one_shot_fallbacks": solver.OneShot, "hard_timeouts": solver.HardTimeouts, "wall_s": round2(solver.WallS), "max_query_s": round2(solver.MaxS)}
 	cov["load_and_ssa_build_s"] = round2(loadS)
 	cov["jobs"] = jobSumm
